@@ -208,7 +208,7 @@ def e2e_cases(ctx, rng, count):
     names = live_templates()
     out = []
     for i in range(count):
-        stream = ["bbb", "tears", "syn1", "syn2", "syn3"][i % 5]
+        stream = ["bbb", "tears", "syn1", "syn2", "syn3", "syn4"][i % 6]
         man = names[(i // 5) % len(names)]
         opts = {}
         for k, vals in OPTION_POOL:
